@@ -139,7 +139,7 @@ func registerErrors(in *Interp) {
 		return (*Value)(nil)
 	})
 	in.reg("github.com/pkg/errors.Errorf", func(th *Thread, fn *ssa.Function, a []Value) Value {
-		s, _ := th.sprintf(th.str(a[0], "format"), a[1].([]Value))
+		s, _ := th.sprintfV(a[0], a[1].([]Value))
 		ft := in.Prog.ImportedPackage("github.com/pkg/errors").Type("fundamental").Object().Type()
 		return Iface{T: types.NewPointer(ft), V: ptrTo(Struct{s, (*Value)(nil)})}
 	})
